@@ -248,7 +248,7 @@ func run(c *runner.Ctx) {
 						kind := "message-not-verbatim"
 						if cl.Text == m {
 							kind = "wrong-label"
-						} else if oserr {
+						} else if oserr && (rname == "file" || rname == "dir") {
 							kind = "message-replaced-by-os-error"
 						}
 						det["expected_label"], det["expected_text"] = wantLabel, m
